@@ -175,7 +175,15 @@ def check_windows(ctx):
                         isinstance(node.value.value, ast.Name) and node.value.value.id == _bandit_var(node) and \
                         ob is not None and ib is not None and node.slice.lower is not None and \
                         node.slice.upper is not None:
-                    b = (ast.unparse(node.slice.lower), ast.unparse(node.slice.upper))
+                    # the bounds as expressions over the batch / chunk bounds (locals replaced by what reaches them)
+                    from .semantic import Env
+                    from .common import parent as _parent
+                    env = Env(on.node.body, stop={x for x in (ob + ib) if x.isidentifier()})
+                    st = node
+                    while st is not None and id(st) not in env.env_at:
+                        st = _parent(st)
+                    b = tuple(" ".join(ast.unparse(env.at(st, x) if st is not None else x).split())
+                              for x in (node.slice.lower, node.slice.upper))
                     ctx.check(b in (("%s + %s" % (ob[0], ib[0]), "%s + %s" % (ob[0], ib[1])),
                                     ("%s + %s" % (ib[0], ob[0]), "%s + %s" % (ib[1], ob[0]))), "R16.1",
                               "online chunks: reported expectations are taken for the rows of the chunk", node, on,
